@@ -278,6 +278,7 @@ func genC13(c *Ctx) {
 		c.Count("parser:keyfile")
 	}
 	sexpInputs(c, n/3)
+	keyFileCases(c, 6)
 	// ---- Receive in every state ----
 	rounds := 3
 	perState := 25
